@@ -18,9 +18,20 @@ S2  every enumerated case is executed: BinaryCIFData(arr, chain).serialize() -> 
     the type boundaries of _to_smallest_integer_type; S1 checks that whatever the modelled search for
     the decimals + range check + fall-back may return is inside the relative tolerance; every case is
     executed and judged by TLC (Trace.tla, kinds "compressx" / "compress").
-S3  random arrays of every dtype (length <= 60), random chains and parameters, compress() with
-    several tolerances (fixed-point universe, and decimal floats of any magnitude), whole files with
-    masks: recorded and re-computed by TLC.
+    Memory representations (BcifEncoding.tla "memory representation of the input array"): every enumerated
+    case is executed with its array held natively, with non-native byte order, as a strided / reversed view,
+    read-only, unaligned, all of that at once, in the 64-bit integer carrier and as a Python list (RepsOf);
+    the specification's result does not depend on it, S1 checks that the code-shaped first encoding step
+    (_safe_cast shortcut, tobytes in the byte order of the array) does not either.
+    Columns with histories (BcifColumn.tla, MCColumn.tla): (column with mask, sequence of <= 2 read accesses:
+    as_array with every dtype choice with / without masked_value, as_item, serialize, compress, write);
+    S1: the code-shaped as_array (astype copies, placeholders written into the copy) never changes the
+    column; every case is executed: the column in memory and the column read back from a written file are
+    compared with the specification's.
+S3  random arrays of every dtype (length <= 60) in random memory representations, random chains and
+    parameters, compress() with several tolerances (fixed-point universe, and decimal floats of any
+    magnitude), whole files with masks, random read accesses before writing and on the file that was read
+    before writing it again: recorded and re-computed by TLC.
 """
 
 from __future__ import annotations
@@ -951,10 +962,18 @@ def run(ctx):
         "with two units of slack (float32: plus 2^-20 relative); arrays on which float rounding noise could decide "
         "the search for the decimals differently from decimal arithmetic (Dom_SciDecisive) are skipped and counted; "
         "a call that uses more than 0.5 s of CPU time (an ordinary call: < 10 ms) is recorded as 'Diverges'",
+        "memory representations of the input array: native, non-native byte order, strided and reversed views, "
+        "read-only, unaligned, all at once, 32-bit values in int64 / uint64, Python lists (non-empty) - RepsOf; the "
+        "machine is little-endian; the INT_MIN values of the recorded uint64 Delta defect are not pushed through "
+        "IntegerPacking (Dom_RepSafe)",
+        "columns with histories: int8 / int32 / float32 / float64 / string columns of 1-2 (thorough 3) rows with every "
+        "mask pattern class, histories of at most 2 (thorough 3) read accesses; the outcome and the returned value of "
+        "an access are not judged (the property speaks about what is written afterwards), only the column after it",
         "trusted: TLC, the TLA+ value parser, the float <-> fixed-point projection (fractions.Fraction), numpy, msgpack",
     ]
     ctx.cov["rule"] = ("non-trivial = case whose chain has >= 2 encodings or a lossy encoding, or whose array has "
-                       ">= 2 distinct values / recorded event with an array of >= 2 elements")
+                       ">= 2 distinct values / recorded event with an array of >= 2 elements / column case with a "
+                       "non-empty history and a mask that marks a row")
     done = []
     # thorough: the rich value sets at length <= 2, and the quick value sets at length <= 3
     for cfg in (["MC.cfg"] if quick else ["MC_thorough.cfg", "MC_thorough3.cfg"]):
@@ -1245,22 +1264,35 @@ def run(ctx):
                         y["fx"] += 3 * (abs(x["m"]) // e["T"]) + 2000
                         return True
         return False
+    def corrupt_f(tr):
+        # a masked row of a column that was read back the second time holds a placeholder
+        for e in tr:
+            if e["kind"] == "file":
+                for c in e["cout2"]:
+                    if c["A"]["t"] in (1, 2, 3, 4, 5, 6) and c["A"]["v"]:
+                        c["A"]["v"][-1] = 0 if c["A"]["v"][-1] else 1
+                        return True
+        return False
     if clean:
-        # one TLC run: three traces with a corrupted integer result, three with a corrupted decimal float
+        # one TLC run: three traces with a corrupted integer result, three with a corrupted decimal float,
+        # two with a corrupted column of a file
         sel = clean[:3]
         sel = sel + [t for t in clean if any(e["kind"] == "compressx" for e in t) and not any(t is u for u in sel)][:3]
+        nx = len(sel)
+        sel = sel + [t for t in clean if any(e["kind"] == "file" and any(c["A"]["t"] in (1, 2, 3, 4, 5) for c in e["cin"])
+                                             for e in t) and not any(t is u for u in sel)][:2]
         calls = []
 
         def corrupt_both(tr):
             calls.append(1)
-            return corrupt(tr) if len(calls) <= 3 else corrupt_x(tr)
-        helpers.binding_selftest(ctx, sel, corrupt_both, max_traces=6)
+            return corrupt(tr) if len(calls) <= 3 else corrupt_x(tr) if len(calls) <= nx else corrupt_f(tr)
+        helpers.binding_selftest(ctx, sel, corrupt_both, max_traces=8)
     else:
         ctx.note("binding self-test skipped: no trace without disagreement")
 
 
 MANIFEST = {
-    "technique": "TLA+ specification of the seven BinaryCIF encodings, their chains, BinaryCIFData serialisation and the candidate chains of compress() (specs/C05) model-checked by TLC; every enumerated (chain, array) case executed through BinaryCIFData.serialize -> msgpack -> deserialize; recorded random arrays, chains, compress() calls and files re-computed by TLC",
-    "level_text": "TLC enumerates integer arrays of every 8/16-bit type over their boundary values (length <=2, thorough 3, plus runs) and 32-bit arrays, float32/float64 arrays over dyadic values, NaN, infinities and large integers, and string arrays with empty and duplicate strings, each under the twelve chains compress() tries and explicit-parameter variants (narrow target types, wrong sizes, unsigned packing of negatives, given origins, fixed point with 4 factors, interval quantisation with 3 grids, string arrays with nested chains), and checks that the code-shaped model returns the array exactly / within half a fixed-point step / within the documented quantisation bin whenever the representation can hold it and refuses it otherwise, except in the two recorded classes; every case is then executed against the real encoders through msgpack and compared with the specification's outcome and acceptance interval. compress() is also enumerated as an operation: float32/float64 arrays (length <=2, thorough 3, optionally with a repeated tail) over decimal floats of every magnitude class from 1e-306 to 1e300 (more than 15 decimals, fractions, coordinates, the int32 boundary of the scaled values on both sides, one-sided overflow, zero, NaN, infinities) x tolerances 1e-1..1e-6 and int32 arrays on the integer type boundaries; TLC checks that the modelled search for the decimals + int32 range check + lossless fall-back stays inside the relative tolerance, every case is executed through compress -> serialize -> (msgpack) -> deserialize and judged by TLC. Random arrays up to 60 elements of all dtypes with random chains and parameters, compress() with tolerances 1e-1..1e-6 (fixed-point universe and decimal floats of any magnitude) and whole files with masks are recorded and re-computed by TLC.",
-    "level_note": "Bounded: exhaustive only for arrays of <=2 (thorough 3) elements over boundary value sets; longer arrays only through recorded runs. Floats are restricted to dyadic values on which float arithmetic is exact (plus NaN/inf/large integers); fixed-point factors <=1000. Delta / IntegerPacking arithmetic crossing +-2^31, UINT32 values >= 2^31 and int64 input are not decided (TLC integers are 32 bit). The encoded byte form is compared with the model as a diagnostic only. Recorded defects (unchecked float->int32 cast in FixedPoint, IntervalQuantization outside [min,max]; both in encoding.pyx) are accepted only in their predicted shape; the four defects of compress() (unchecked cast reached through compress(), endless search for the decimals beyond the float range, factor 10^d >= 2^64 not serialisable, float32 range check at 2^31) are repaired in /repo, their predicates are FALSE and the situations they occurred in are still required to be enumerated. compress() of floats is judged on decimal floats where float rounding noise cannot change the number of decimals chosen (other arrays are skipped, counted); which of fixed point / raw bytes compress() picks is not modelled. Trusted: TLC, the TLA+ value parser, the float<->fixed-point projection, numpy, msgpack.",
+    "technique": "TLA+ specification of the seven BinaryCIF encodings, their chains, BinaryCIFData serialisation and the candidate chains of compress() (specs/C05) model-checked by TLC; every enumerated (chain, array) case executed through BinaryCIFData.serialize -> msgpack -> deserialize; every case under every memory representation of its array; columns with masks under enumerated histories of read accesses; recorded random arrays, chains, compress() calls and files with access histories re-computed by TLC",
+    "level_text": "TLC enumerates integer arrays of every 8/16-bit type over their boundary values (length <=2, thorough 3, plus runs) and 32-bit arrays, float32/float64 arrays over dyadic values, NaN, infinities and large integers, and string arrays with empty and duplicate strings, each under the twelve chains compress() tries and explicit-parameter variants (narrow target types, wrong sizes, unsigned packing of negatives, given origins, fixed point with 4 factors, interval quantisation with 3 grids, string arrays with nested chains), and checks that the code-shaped model returns the array exactly / within half a fixed-point step / within the documented quantisation bin whenever the representation can hold it and refuses it otherwise, except in the two recorded classes; every case is then executed against the real encoders through msgpack and compared with the specification's outcome and acceptance interval. compress() is also enumerated as an operation: float32/float64 arrays (length <=2, thorough 3, optionally with a repeated tail) over decimal floats of every magnitude class from 1e-306 to 1e300 (more than 15 decimals, fractions, coordinates, the int32 boundary of the scaled values on both sides, one-sided overflow, zero, NaN, infinities) x tolerances 1e-1..1e-6 and int32 arrays on the integer type boundaries; TLC checks that the modelled search for the decimals + int32 range check + lossless fall-back stays inside the relative tolerance, every case is executed through compress -> serialize -> (msgpack) -> deserialize and judged by TLC. Every enumerated case is executed under every memory representation the specification lists for its array (native, non-native byte order, strided, reversed, read-only, unaligned, all at once, 64-bit carrier, Python list), with one expectation; TLC checks that the code-shaped first encoding step does not depend on it outside one recorded class. Columns (int8/int32/float32/float64/string, 1-2 rows, every class of mask) are enumerated with every history of at most two read accesses (as_array with five dtype choices with/without masked_value, as_item, serialize, compress, write): TLC checks that the code-shaped accessors never change the column, the driver performs the history and compares the column in memory and the column read back from a written file with the specification's. Random arrays up to 60 elements of all dtypes in random representations with random chains and parameters, compress() with tolerances 1e-1..1e-6 (fixed-point universe and decimal floats of any magnitude) and whole files with masks (random read accesses before writing, and on the file read back before writing it again) are recorded and re-computed by TLC.",
+    "level_note": "Bounded: exhaustive only for arrays of <=2 (thorough 3) elements over boundary value sets; longer arrays only through recorded runs. Floats are restricted to dyadic values on which float arithmetic is exact (plus NaN/inf/large integers); fixed-point factors <=1000. Delta / IntegerPacking arithmetic crossing +-2^31, UINT32 values >= 2^31 and int64 input are not decided (TLC integers are 32 bit). The encoded byte form is compared with the model as a diagnostic only. Histories longer than 2 (thorough 3) accesses and columns longer than 2 (3) rows only through recorded runs; the values an accessor returns are not judged. Recorded defects (unchecked float->int32 cast in FixedPoint, IntervalQuantization outside [min,max], Delta on a uint64 array with an element below the origin; all in encoding.pyx) are accepted only in their predicted shape; the four defects of compress() (unchecked cast reached through compress(), endless search for the decimals beyond the float range, factor 10^d >= 2^64 not serialisable, float32 range check at 2^31) are repaired in /repo, their predicates are FALSE and the situations they occurred in are still required to be enumerated. compress() of floats is judged on decimal floats where float rounding noise cannot change the number of decimals chosen (other arrays are skipped, counted); which of fixed point / raw bytes compress() picks is not modelled. Trusted: TLC, the TLA+ value parser, the float<->fixed-point projection, numpy, msgpack.",
 }
